@@ -4,22 +4,10 @@
     leaves un-emitted operations applied for the rest of the cycle, which only
     withholds capacity), but every successful call must still be admissible and
     the monitor must hold. *)
-From KaiV Require Export Run.Cycle Run.Decision.
+From KaiV Require Export Run.Cycle Run.Decision Model.Snapshot.
 
-(** How the snapshot classifies a pod (pod_info.getTaskStatus) and whether
+(** How the snapshot classifies a pod (pod_info.getTaskStatus: [task_status], Model/Snapshot.v) and whether
     NodeInfo.AddTasksToNode accounts it on the node it names. *)
-Inductive phase := PhPending | PhRunning | PhSucceeded | PhFailed | PhUnknown.
-Definition task_status (ph : phase) (deleting on_node has_br gated : bool) : status :=
-  match ph with
-  | PhRunning => if deleting then Releasing else Running
-  | PhPending => if deleting then Releasing
-                 else if on_node then Bound
-                 else if has_br then Binding
-                 else if gated then Gated else Pending
-  | PhUnknown => Unknown
-  | PhSucceeded => Succeeded
-  | PhFailed => Failed
-  end.
 (** a pod that sits on a node, or is being bound to one, and has not finished *)
 Definition occupies (ph : phase) (on_node has_br : bool) : bool :=
   (on_node || has_br) && match ph with PhPending | PhRunning => true | _ => false end.
@@ -29,7 +17,89 @@ Record scase := mkSC { sc_phase : phase; sc_del : bool; sc_node : bool; sc_br : 
 (** [FDecision]: a GPU-group choice of the real GetNodePreferableGpuForSharing (Run/Decision.v): a choice
     that is not marked as releasing leads to a Bind, so it must not stand on devices or device memory
     that terminating pods still hold. *)
-Inductive c01case := FCycle (k : ccase) | FFault (k : ccase) | FStatus (c : scase) | FDecision (d : dcase).
+
+(** [FSnapshot]: an API world (nodes, pods, BindRequests) handed to the real scheduler cache over fake clientsets.
+    [sn_obs] / [sn_pods]: the books of every node and the status and node of every pod, read off the real
+    ClusterInfo.Snapshot the moment the session took it; [sn_calls]: the Bind (those that the real Cache.Bind
+    accepted) and TaskPipelined calls of one real allocate action on that session. *)
+Record snapcase := mkSN {
+  sn_world : world;
+  sn_obs : amap obs;
+  sn_pods : list (positive * (status * option positive));
+  sn_calls : list call;
+}.
+
+Definition opt_pos_eqb (a b : option positive) : bool :=
+  match a, b with Some x, Some y => Pos.eqb x y | None, None => true | _, _ => false end.
+
+(** the pods of the world as the session holds them after the (model) snapshot *)
+Definition snap_tis (w : world) : list tinfo :=
+  map (fun p => let tn := snap_task false w p in mkTI (fst tn) 1%positive (snd tn)) (w_pods w).
+
+(** correspondence: the model snapshot has the books and the pod classification of the real one, the struct and
+    vector forms of the real books agree, and every Bind of the allocate action passes the model's guard in the
+    model snapshot (replayed in order, Run/Cycle.v). *)
+Definition snapshot_agrees (s : snapcase) : bool :=
+  let w := sn_world s in
+  amap_eqb2 obs_matches (snapshot w) (sn_obs s)
+  && forallb (fun ko => let o := snd ko in req (o_idle o) (o_idle_v o) && req (o_used o) (o_used_v o) && req (o_rel o) (o_rel_v o)) (sn_obs s)
+  && list_eqb (fun a b => Pos.eqb (fst a) (fst b) && status_eqb (fst (snd a)) (fst (snd b)) && opt_pos_eqb (snd (snd a)) (snd (snd b)))
+              (snap_pods false w) (sn_pods s)
+  && match replay (snap_tis w) (snapshot w) (sn_calls s) with
+     | Some (_, ok) => ok
+     | None => false
+     end.
+
+(** the books a real node reported, as a node *)
+Definition node_of_obs (n0 : node) (o : obs) : node :=
+  mkNode (n_alloc n0) (o_idle o) (o_used o) (o_rel o) (n_ngpu n0) (n_gpumem n0) [] (o_gused o) (o_galloc o) (o_grel o) [].
+
+(** pods the allocate action bound to [nid], with the groups it bound them to *)
+Definition snap_bound_on (s : snapcase) (nid : positive) : list task :=
+  flat_map (fun c => match c with
+                     | CBind p n gs =>
+                         if Pos.eqb n nid then
+                           match find (fun q => Pos.eqb (wp_id q) p) (w_pods (sn_world s)) with
+                           | Some q => [set_status (wp_task q) Allocated gs]
+                           | None => []
+                           end
+                         else []
+                     | _ => []
+                     end) (sn_calls s).
+Definition snap_binds (s : snapcase) : list (positive * positive) :=
+  flat_map (fun c => match c with CBind p n _ => [(p, n)] | _ => [] end) (sn_calls s).
+
+(** The monitor reads the world (who occupies what: [occupants], Model/Snapshot.v, defined from the API objects
+    alone), the real books and the real calls:
+    (a) every occupying pod is charged to its node and nothing else is: the real books of every node equal the
+        recomputation from its occupants (used, idle = allocatable - occupants, releasing = terminating occupants,
+        memory per shared device, whole devices);
+    (b) after the allocate action, on every node and for every resource, what the occupants ask for plus what was
+        bound stays within the allocatable amount (whole devices and memory per shared device included);
+    (c) every Bind names a pod and a node of the world, at most once per pod. *)
+Definition snap_node_charged (s : snapcase) (nid : positive) (n0 : node) : bool :=
+  match alookup nid (sn_obs s) with
+  | Some o => books_ok true (node_of_obs n0 o) (occupants (sn_world s) nid)
+  | None => false
+  end.
+Definition snap_node_within (s : snapcase) (nid : positive) (n0 : node) : bool :=
+  let ts := occupants (sn_world s) nid ++ snap_bound_on s nid in
+  let demand := rsum (map charge ts) in
+  let gs := nodup_pos (all_groups ts) in
+  (cpu demand <=? cpu (n_alloc n0)) && (mem demand <=? mem (n_alloc n0))
+  && (gpu demand <=? gpu (n_alloc n0)) && (pods demand <=? pods (n_alloc n0))
+  && (mig demand <=? mig (n_alloc n0)) && (ext demand <=? ext (n_alloc n0))
+  && (gpu demand + Z.of_nat (List.length (filter (fun g => 0 <? spec_gused g ts) gs)) <=? n_ngpu n0)
+  && forallb (fun g => spec_gused g ts <=? n_gpumem n0) gs.
+Definition snapshot_monitor (s : snapcase) : bool :=
+  let w := sn_world s in
+  forallb (fun kn => snap_node_charged s (fst kn) (snd kn)) (w_nodes w)
+  && forallb (fun kn => snap_node_within s (fst kn) (snd kn)) (w_nodes w)
+  && forallb (fun pn => existsb (fun q => Pos.eqb (wp_id q) (fst pn)) (w_pods w) && amem (snd pn) (w_nodes w)) (snap_binds s)
+  && nodup_posb (map fst (snap_binds s)).
+
+Inductive c01case := FCycle (k : ccase) | FFault (k : ccase) | FStatus (c : scase) | FDecision (d : dcase)
+                   | FSnapshot (s : snapcase).
 
 Definition guards_ok (k : ccase) : bool :=
   match replay (c_tasks k) (c_nodes k) (c_calls k) with
@@ -48,6 +118,7 @@ Definition model_agrees (c : c01case) : bool :=
   | FStatus c => status_eqb (task_status (sc_phase c) (sc_del c) (sc_node c) (sc_br c) (sc_gated c)) (sc_status c)
                  && Bool.eqb (sc_accounted c) ((sc_node c || sc_br c) && active_used (sc_status c))
   | FDecision d => decision_agrees d
+  | FSnapshot s => snapshot_agrees s
   end.
 Definition monitor_ok (c : c01case) : bool :=
   match c with
@@ -55,6 +126,7 @@ Definition monitor_ok (c : c01case) : bool :=
   | FFault k => c01_ok k
   | FStatus c => negb (occupies (sc_phase c) (sc_node c) (sc_br c)) || sc_accounted c
   | FDecision d => decision_monitor d
+  | FSnapshot s => snapshot_monitor s
   end.
 Definition run_mismatches (cs : list (nat * c01case)) : list nat := failing (fun k => negb (model_agrees k)) cs.
 Definition run_monitor (cs : list (nat * c01case)) : list nat := failing (fun k => negb (monitor_ok k)) cs.
